@@ -158,14 +158,14 @@ AlgoSelected(A, D) ==
    IN {c \in Codes : c \in allow /\ c \notin deny}
 
 ---------------------------------------------------------------------------------
-VARIABLES allow, deny, done
-vars == <<allow, deny, done>>
+VARIABLES allow, deny
+vars == <<allow, deny>>
 
 SelSets(n) == UNION {kSubset(k, PI) : k \in 0..n}
 Init == /\ allow \in SelSets(MaxAllow) /\ deny \in SelSets(MaxDeny)
         /\ Cardinality(allow) + Cardinality(deny) <= MaxTotal
-        /\ done = FALSE
-Emit == /\ ~done /\ done' = TRUE /\ UNCHANGED <<allow, deny>>
+\* Emit is a stuttering step: TLC evaluates Next once per distinct state, so every pair is printed exactly once
+Emit == /\ UNCHANGED <<allow, deny>>
         /\ PrintT(ToJson([a   |-> SetToSeq(allow), d |-> SetToSeq(deny),
                           sel |-> SetToSeq({i \in RI : Rules[i].code \in Selected(allow, deny)}),   \* rule indices
                           algo_same |-> (AlgoSelected(allow, deny) = Selected(allow, deny))]))
@@ -180,7 +180,7 @@ ASSUME NamesUnique        \* two rules with one name: the code keeps the last re
 
 ---------------------------------------------------------------------------------
 (* Algo => Contract *)
-RefMapPrecedence    == done \in BOOLEAN /\ AlgoRefMap = RefMap
+RefMapPrecedence    == allow \subseteq PI /\ AlgoRefMap = RefMap
 IndexedIsByRef      == Selected(allow, deny) = SelectedRefs({Pool[i] : i \in allow}, {Pool[i] : i \in deny})
 SelectedMatches     == AlgoSelected(allow, deny) = Selected(allow, deny)
 (* sanity of the contract itself *)
